@@ -1388,7 +1388,7 @@ func (c *Ctx) checkLoopFormulas() {
 				msg = "a value is produced before the ring is full: " + sym.CanonString(out)
 			case want != nil && out == nil:
 				msg = "no value is produced although the ring is full"
-			case want != nil && !sym.Equal(out, want):
+			case want != nil && !sym.Equal(out, want) && !sym.Equal(sym.ExpandPow(out), sym.ExpandPow(want)):
 				msg = fmt.Sprintf("the value is %s, documented %s", short(sym.CanonString(out), 200), short(sym.CanonString(want), 200))
 			}
 			if nState == 1 {
